@@ -28,6 +28,10 @@
      "alone"  the item is emitted alone (what the statement allows; the repaired code)
      "hang"   the extraction makes no progress and the loop never ends (the pinned code)
 
+   Remainder = what split() does with a remainder that holds no item any more (BatcherSplit.tla): "dropped" / "kept".
+   With "kept" (the pinned code) Consume counts the request's completion on that part too and, as it is smaller
+   than min_size, keeps it as the current batch: the callback then rides on whatever is merged into it.
+
    Deviations from the code, named: contexts/links merging of batch contexts is not modelled; the
    byte overhead of containers is not modelled; the worker pool has one token (NumConsumers is
    forced to 1 when batching is configured). *)
@@ -40,9 +44,11 @@ CONSTANTS
   MaxSize, MinSize,
   CanFail,     \* may the export function fail
   Oversized,   \* "alone" | "hang"        (see BatcherSplit.tla)
-  AttachFirst  \* "ifgrew": the callback of a request is attached to the first part of a merge only when that
+  AttachFirst, \* "ifgrew": the callback of a request is attached to the first part of a merge only when that
                \*           part holds some of its data (the statement; the repaired code)
                \* "always": it is attached unconditionally (the pinned code)
+  Remainder    \* "dropped": a remainder without items is not a part (the statement; the repaired code)
+               \* "kept":    split() returns it as a last part without items (the pinned code)
 
 VARIABLES
   tosend,     \* requests not yet handed in
@@ -62,10 +68,12 @@ vars == <<implVars, obsVars>>
 \* riders (ghost): requests whose callback is attached to the batch although it holds none of their items
 NoBatch == [items |-> <<>>, dones |-> <<>>, none |-> TRUE, riders |-> {}]
 B(items, ds) == [items |-> items, dones |-> ds, none |-> FALSE, riders |-> {}]
+\* a part MergeSplit returned for request r alone; without items (Remainder = "kept") r rides on it from the start
+P(items, r) == [B(items, <<r>>) EXCEPT !.riders = IF items = <<>> THEN {r} ELSE {}]
 
 Strip(s)  == [i \in DOMAIN s |-> [id |-> s[i].id, ctx |-> s[i].ctx]]
 SizeOf(s) == SizeOfP(s, Sizer)
-MergeSplit(curItems, newItems) == MergeSplitP(curItems, newItems, Sizer, MaxSize, Oversized)
+MergeSplit(curItems, newItems) == MergeSplitTP(curItems, newItems, Sizer, MaxSize, Oversized, Remainder)
 
 ---------------------------------------------------------------------------
 Init ==
@@ -120,16 +128,16 @@ Consume ==
                   /\ refc' = [refc EXCEPT ![r] = IF flushes > 1 THEN flushes ELSE 0]
                   /\ IF cur.none
                        THEN LET keepLast == SizeOf(lst[n]) < MinSize IN
-                            /\ cur' = IF keepLast THEN B(lst[n], <<r>>) ELSE NoBatch
-                            /\ cflush' = [i \in 1..(IF keepLast THEN n - 1 ELSE n) |-> B(lst[i], <<r>>)]
+                            /\ cur' = IF keepLast THEN P(lst[n], r) ELSE NoBatch
+                            /\ cflush' = [i \in 1..(IF keepLast THEN n - 1 ELSE n) |-> P(lst[i], r)]
                        ELSE LET grew       == n = 1 \/ Len(lst[1]) > Len(cur.items)
                                 first      == [B(lst[1], IF inFirst THEN Append(cur.dones, r) ELSE cur.dones)
                                                  EXCEPT !.riders = IF inFirst /\ ~grew THEN cur.riders \cup {r} ELSE cur.riders]
                                 flushFirst == n > 1 \/ SizeOf(lst[1]) >= MinSize
                                 rest       == SubSeq(lst, 2, n)
                                 keepLast   == rest # <<>> /\ SizeOf(rest[Len(rest)]) < MinSize
-                                restFl     == [i \in 1..(IF keepLast THEN Len(rest) - 1 ELSE Len(rest)) |-> B(rest[i], <<r>>)]
-                            IN /\ cur' = IF keepLast THEN B(rest[Len(rest)], <<r>>)
+                                restFl     == [i \in 1..(IF keepLast THEN Len(rest) - 1 ELSE Len(rest)) |-> P(rest[i], r)]
+                            IN /\ cur' = IF keepLast THEN P(rest[Len(rest)], r)
                                          ELSE IF flushFirst THEN NoBatch ELSE first
                                /\ cflush' = IF flushFirst THEN <<first>> \o restFl ELSE restFl
   /\ UNCHANGED <<tosend, tflush, inflight, rerr, stopping, obsVars>>
@@ -139,7 +147,10 @@ FlushStart(who) ==
   /\ inflight = <<>>
   /\ LET lst == IF who = "consumer" THEN cflush ELSE tflush IN
        /\ lst # <<>>
-       /\ batches' = Append(batches, [items |-> Strip(Head(lst).items), reqs |-> {}, size |-> SizeOf(Head(lst).items),
+       \* a part without items is what is left of the requests riding on it: it holds their containers
+       /\ batches' = Append(batches, [items |-> Strip(Head(lst).items),
+                                      reqs |-> IF Head(lst).items = <<>> THEN Head(lst).riders ELSE {},
+                                      size |-> SizeOf(Head(lst).items),
                                       state |-> "open", ok |-> TRUE, riders |-> Head(lst).riders])
        /\ inflight' = <<[k |-> Len(batches) + 1, dones |-> Head(lst).dones]>>
        /\ IF who = "consumer" THEN cflush' = Tail(cflush) /\ UNCHANGED tflush
@@ -196,12 +207,13 @@ ConservedAtEnd == Quiescent => Conserved
 Property == /\ Conservation /\ ConservedAtEnd /\ Identity /\ SizeBound(MaxSize) /\ Terminates
             /\ DoneOnce /\ DoneAfterParts /\ DoneErrIff
 
-(* Open known finding C04-done-first-part (the tree attaches unconditionally, AttachFirst = "always"):
+(* Open known findings C04-done-first-part (the tree attaches unconditionally, AttachFirst = "always") and
+   C04-split-dataless-remainder (the tree returns a remainder without items as a part, Remainder = "kept"):
    a request is reported failed because a failed batch carried its callback without holding any of
    its items.  The model keeps describing what the code does; the invariant is checked in the form
    Inv \/ KnownPredicate: a false "iff" verdict is tolerated exactly when it is an error report that
    such a batch explains.  Every other way of violating DoneErrIff still fails the run. *)
-KnownRider(r, i) == /\ AttachFirst = "always"
+KnownRider(r, i) == /\ AttachFirst = "always" \/ Remainder = "kept"
                     /\ dones[r][i].err
                     /\ \E k \in DOMAIN batches : Failed(batches, k) /\ r \in batches[k].riders
 DoneErrIffOrKnown == \A r \in DOMAIN dones : \A i \in DOMAIN dones[r] : dones[r][i].iff \/ KnownRider(r, i)
